@@ -22,7 +22,9 @@ import (
 type kScalar struct{ t *Term } // Str identity
 type kGen struct {
 	id        int
-	own, n    int
+	own, n, t int
+	reader    *Term // identity of the randomness the dealer polynomial is drawn from
+	suiteSeed *Term
 	pks       []*Term
 	processed map[string]bool
 }
@@ -76,14 +78,29 @@ func registerKyberDKG(P *Program) {
 		return Iface{T: types.Typ[types.Int], V: &Opaque{Kind: "kyber.scalar", Data: &kScalar{}}}
 	}
 	opaqueMethods["kyber.group.Scalar"] = opaqueMethods["kyber.suite.Scalar"]
+	// RandomStream of a suite seeded with s: one continuing deterministic stream per suite object; the k-th scalar picked
+	// from it is pick(s, k). An unseeded suite draws from crypto/rand: fresh values.
 	opaqueMethods["kyber.suite.RandomStream"] = func(in *Interp, op *Opaque, args []Value) Value {
-		in.opq++
-		return Iface{T: types.Typ[types.Int], V: &Opaque{Kind: "kyber.stream", Data: in.opq}}
+		return Iface{T: types.Typ[types.Int], V: &Opaque{Kind: "kyber.stream", Data: op.Data.(*kSuite)}}
 	}
 	opaqueMethods["kyber.scalar.Pick"] = func(in *Interp, op *Opaque, args []Value) Value {
-		in.opq++
-		op.Data.(*kScalar).t = in.ts.FreshSym(fmt.Sprintf("scalar#%d", in.opq), StrSort)
+		su := args[0].(Iface).V.(*Opaque).Data.(*kSuite)
+		if su.seed.A == nil && su.seed.Blob == nil {
+			in.opq++
+			op.Data.(*kScalar).t = in.ts.FreshSym(fmt.Sprintf("cryptorand.scalar#%d", in.opq), StrSort)
+		} else {
+			in.injUFs["kyber.pick"] = true
+			op.Data.(*kScalar).t = in.ts.App("kyber.pick", StrSort, in.sliceStr(su.seed), in.ts.Int(int64(su.draws)))
+			su.draws++
+		}
 		return Iface{T: types.Typ[types.Int], V: op}
+	}
+	opaqueMethods["kyber.scalar.MarshalBinary"] = func(in *Interp, op *Opaque, args []Value) Value {
+		s := op.Data.(*kScalar)
+		if s.t == nil {
+			return Tuple{in.mkBytes(make([]byte, 32)), Iface{}}
+		}
+		return Tuple{in.strToBytes(in.ts.App("kyber.scalar.enc", StrSort, s.t)), Iface{}}
 	}
 	opaqueMethods["kyber.point.Mul"] = func(in *Interp, op *Opaque, args []Value) Value {
 		s := args[0].(Iface).V.(*Opaque).Data.(*kScalar)
@@ -136,6 +153,20 @@ func registerKyberDKG(P *Program) {
 		}
 		in.opq++
 		g.id = in.opq
+		g.t = in.concreteInt(args[3].(*Term), "dkg threshold")
+		g.reader = in.ts.Str("<nil reader>")
+		if rd, ok := args[4].(Iface); ok && rd.T != nil {
+			if p, ok := rd.V.(Ptr); ok && p != nil {
+				if op, ok := (*p).(*Opaque); ok && op.Kind == "frand" {
+					g.reader = op.Data.(*Term)
+				}
+			}
+		}
+		if so, ok := args[0].(Iface).V.(*Opaque); ok {
+			if su, ok := so.Data.(*kSuite); ok && (su.seed.A != nil || su.seed.Blob != nil) {
+				g.suiteSeed = in.sliceStr(su.seed)
+			}
+		}
 		var cell Value = &Opaque{Kind: "kyber.dkg", Data: g}
 		return Tuple{Ptr(&cell), Iface{}}
 	})
@@ -211,6 +242,21 @@ func registerKyberDKG(P *Program) {
 		outer[1] = Ptr(&ic)
 		var oc Value = outer
 		return Tuple{Ptr(&oc), Iface{}}
+	})
+	// dealer polynomial: drawn from the reader given to NewDistKeyGenerator only (UserReaderOnly; vss.NewDealer draws all
+	// coefficients from that stream, vss.go:133) => a function of (reader identity, t)
+	r("(*"+ped+".DistKeyGenerator).GetDealer", func(in *Interp, caller *frame, fn *ssa.Function, args []Value) Value {
+		var cell Value = &Opaque{Kind: "kyber.dealer", Data: genOf(in, args[0])}
+		return Ptr(&cell)
+	})
+	r("(*"+vss+".Dealer).Commits", func(in *Interp, caller *frame, fn *ssa.Function, args []Value) Value {
+		g := (*args[0].(Ptr)).(*Opaque).Data.(*kGen)
+		var pts []Value
+		for i := 0; i < g.t; i++ {
+			enc := in.ts.App("dkg.dealer.commit", StrSort, g.reader, in.ts.Int(int64(g.t)), in.ts.Int(int64(i)))
+			pts = append(pts, Iface{T: types.Typ[types.Int], V: &Opaque{Kind: "kyber.point", Data: &kPoint{enc: enc}}})
+		}
+		return SliceV{A: pts}
 	})
 	r("(*"+ped+".DistKeyGenerator).Verifiers", func(in *Interp, caller *frame, fn *ssa.Function, args []Value) Value {
 		g := genOf(in, args[0])
